@@ -385,13 +385,12 @@ class MessageManager(ClientLike):
         sub = cd.MDF_SUBSCRIBE.from_buffer(msg.data)
 
         if sub.msg_type == ALL_MESSAGE_TYPES:
-            self.subscriptions[sub.msg_type].add(src_module)
-
             # Clear out the individual subs
             for sub_type in src_module.subs:
                 self.subscriptions[sub_type].discard(src_module)
             src_module.subs.clear()
 
+            self.subscriptions[sub.msg_type].add(src_module)
             src_module.subs.add(sub.msg_type)
             self.logger.debug(f"SUBSCRIBE- {src_module!s} to ALL_MESSAGE_TYPES")
         else:
